@@ -436,7 +436,8 @@ Qed.
 (* ---------- 3/4/5. one series at a time: first transmission, identical re-sends, bounded retries ----- *)
 
 (* what the monitor knows about the outstanding response: nothing outstanding / bytes b outstanding with
-   `ret` re-sends left / b outstanding unless the DISABLE_UNSOLICITED just answered ended the wait /
+   `ret` re-sends left / b outstanding unless the DISABLE_UNSOLICITED just answered (or just processed
+   by broadcast) ended the wait /
    a retry was announced, the re-send of b is due *)
 Inductive wst :=
 | WNone
@@ -491,6 +492,11 @@ Definition series_mon (cfg : ocfg) (m : sm) (it : item) : option sm :=
       | _ => None
       end
   | IOb OSessionEnd => Some (sm_set_w m WNone)
+  | IOb (OInfo (IBroadcast fn action _)) =>
+      (* a DISABLE_UNSOLICITED processed (action 0) by broadcast ends the wait too, without an answer (fix F30) *)
+      if (fn =? 21) && (action =? 0)
+      then match sm_w m with WSome b0 ret => Some (sm_set_w m (WMaybe b0 ret)) | _ => Some m end
+      else Some m
   | _ => Some m
   end.
 
@@ -544,7 +550,11 @@ Proof.
     destruct (sm_w m) as [|b ret|b ret|b ret] eqn:Ew; try (apply Hsame; exact E).
     eexists. split; [exact E|]. split; [right; eauto|exact Hnf].
   - destruct c; try (apply Hsame; reflexivity); destruct Hs.
-  - destruct i; try (apply Hsame; reflexivity); destruct Hs.
+  - destruct i; try (apply Hsame; reflexivity); try (destruct Hs; fail).
+    clear Hsame. cbn [series_mon].
+    destruct ((fn =? 21) && (action =? 0)); [|exists m; split; [reflexivity|]; split; [apply relax_refl|exact Hnf]].
+    destruct (sm_w m) as [|b ret|b ret|b ret] eqn:Ew; try (exists m; split; [reflexivity|]; split; [apply relax_refl|exact Hnf]).
+    eexists. split; [reflexivity|]. split; [right; eauto|exact Hnf].
   - destruct Hs.
 Qed.
 
@@ -659,6 +669,23 @@ Proof.
     repeat split; try assumption. eauto.
 Qed.
 
+(* the report of a DISABLE_UNSOLICITED processed by broadcast does the same *)
+Lemma series_mon_bcast_disable : forall cfg m,
+  (exists B ret, sm_w m = WSome B ret \/ sm_w m = WMaybe B ret) ->
+  exists m', mrun (series_mon cfg) m (map IOb [OInfo (IBroadcast 21 0 0)]) = Live m' /\
+             sm_armed m' = sm_armed m /\ sm_dis m' = sm_dis m /\ sm_conf m' = sm_conf m /\
+             exists B ret, sm_w m' = WMaybe B ret.
+Proof.
+  intros cfg m (B & ret & Hw). cbn [map].
+  assert (E : series_mon cfg m (IOb (OInfo (IBroadcast 21 0 0))) =
+              match sm_w m with WSome b0 r0 => Some (sm_set_w m (WMaybe b0 r0)) | _ => Some m end) by reflexivity.
+  destruct Hw as [Hw|Hw]; rewrite Hw in E.
+  - erewrite mrun_cons; [|discriminate|exact E]. cbn [mrun]. eexists. split; [reflexivity|].
+    cbn. repeat split. eauto.
+  - erewrite mrun_cons; [|discriminate|exact E]. cbn [mrun]. eexists. split; [reflexivity|].
+    repeat split. eauto.
+Qed.
+
 Lemma series_hstep : forall cfg e s o s' m,
   ustep cfg e s o s' -> Inv cfg s -> series_rel e s m ->
   o = [OOutOfFuel] \/ exists m', mrun (series_mon cfg) m (map IOb o) = Live m' /\ series_rel e s' m'.
@@ -712,12 +739,20 @@ Proof.
     + split; [exact Ha|]. split; [discriminate|]. split; [apply H5; exact Hp|]. split; [apply Hev; reflexivity|].
       unfold w_rel. rewrite H1. left. reflexivity.
   - (* DISABLE_UNSOLICITED during the wait *)
-    right. subst o. destruct H3 as (oa & b & ->).
-    assert (Hdis : sm_dis m = true).
-    { pose proof (frag_src_event _ _ _ _ _ _ Hp H0) as E. subst e. rewrite He. reflexivity. }
+    right. subst o.
     unfold w_rel in Hwr. rewrite H in Hwr.
-    destruct (series_mon_disable cfg oa from b m (H2 Hl) Hdis) as (m' & Hm & Fa & Fd & Fc & Hw').
-    { destruct Hwr as [Hwr|Hwr]; eauto. }
+    assert (Hmon : exists m', mrun (series_mon cfg) m (map IOb o1) = Live m' /\
+                     sm_armed m' = sm_armed m /\ sm_dis m' = sm_dis m /\ sm_conf m' = sm_conf m /\
+                     exists B r, sm_w m' = WMaybe B r).
+    { destruct bc as [bm|].
+      - (* by broadcast: only the report *)
+        subst o1. apply series_mon_bcast_disable. destruct Hwr as [Hwr|Hwr]; eauto.
+      - (* addressed to this outstation: the answer *)
+        destruct H3 as (oa & b & ->).
+        assert (Hdis : sm_dis m = true).
+        { pose proof (frag_src_event _ _ _ _ _ _ Hp H0) as E. subst e. rewrite He. reflexivity. }
+        apply (series_mon_disable cfg oa from b m (H2 Hl) Hdis). destruct Hwr as [Hwr|Hwr]; eauto. }
+    destruct Hmon as (m' & Hm & Fa & Fd & Fc & Hw').
     exists m'. split.
     + rewrite map_app, mrun_app, Hm. destruct n; [reflexivity|]. cbn [map]. erewrite mrun_cons; [reflexivity|discriminate|reflexivity].
     + split; [congruence|]. split.
